@@ -64,7 +64,7 @@ def try_get_signature(fn: Callable):
         return None
 
 
-def assert_can_bind(fn: Callable, *args, **kwargs):
+def assert_can_bind(fn: Callable, /, *args, **kwargs):
     sig = try_get_signature(fn)
     if sig is None:
         return
